@@ -37,6 +37,7 @@ type fsStep struct {
 }
 
 type fsCase struct {
+	ID   int      `json:"id"`
 	Path []fsStep `json:"path"`
 }
 
@@ -100,7 +101,7 @@ func famFmtStream(mode string, args []string) error {
 			}
 			// three ways of building/editing the caller's result
 			for _, style := range []string{"inplace", "literal", "parsed"} {
-				if v := fsReplay(&c, style, n); !v.OK {
+				if v := fsReplay(&c, style, c.ID); !v.OK {
 					v.Detail = "style=" + style + ": " + v.Detail
 					return v
 				}
